@@ -375,10 +375,21 @@ def run_natural(spec):
     bad = make_bad(kind, methods)
     try:
         reg_error = None
+        handles = []
         if spec["after_use"]:
             for mid in ids:
                 prog.register(mid)
             observe(prog, spec["probes"][0], env, None)
+            # handles to methods of the working build, kept across the failing change (f.resolve(...); the same
+            # situation as a generator or callback that is still running)
+            handles = []
+            for p in spec["probes"]:
+                if p["kw"] or not p.get("script"):
+                    continue
+                hargs = [S.build_value(v, env) for v in p["args"]]
+                hr = capture(prog.ov.resolve, *hargs)
+                if hr.kind == "ok" and callable(hr.value):
+                    handles.append((p, hargs, hr.value))
             r = capture(prog.ov.register, bad)
             reg_error = r
         else:
@@ -399,6 +410,23 @@ def run_natural(spec):
         res.nontrivial = True
         res.key = f"{kind}:{'after' if spec['after_use'] else 'before'}:{at}:{R.h64(methods)}"
         valid_expected = fresh_expect(pspec, env, ids, spec["probes"])
+        if still and spec["after_use"]:
+            # a method of the earlier build that delegates now must not dispatch over the half-filled (or the
+            # previous) table either: configuration error, or it ran alone without delegating
+            for p, hargs, h in handles:
+                prog.H.start(p.get("script"))
+                out = capture(h, *hargs)
+                trace = prog.H.trace()
+                res.label("handle-of-earlier-build-called")
+                if out.kind != "config" and (len(trace) >= 2 or out.kind in ("nomethod", "ambiguous", "rejected")):
+                    res.fail(
+                        f"invalid method ({kind}) registered after first use: a method obtained with f.resolve({p['args']}) "
+                        f"before the change, called afterwards with script={p.get('script')}, delegated and got "
+                        f"{out.brief()} trace={trace} instead of a configuration error - recurse / call_next of the "
+                        f"earlier build dispatch over a table that does not hold the registered methods",
+                        "C18:earlier-build-dispatches-over-partial-table",
+                    )
+                    return res
         if still:
             # the complete set cannot be built: every probe must raise a configuration error, again and again
             for rnd in range(2):
